@@ -7,6 +7,7 @@ set -u
 export GOFLAGS=-mod=mod GOPROXY=off GOSUMDB=off GOTOOLCHAIN=local; unset GOWORK
 W=$1; OUT=$2; shift 2
 ROOT=/var/tmp/mutscan; mkdir -p $ROOT
+cp /verif/bin/nrilint $ROOT/nrilint-frozen   # the checker must not change under the scan
 (cd /repo && /verif/bin/mutscan "$@") > $ROOT/muts.jsonl
 N=$(wc -l < $ROOT/muts.jsonl); echo "$N mutants, $W workers"
 : > "$OUT"
@@ -32,10 +33,11 @@ for i, m in enumerate(muts):
     if b.returncode != 0:
         res['result'] = 'noncompile'
     else:
-        c = subprocess.run(['/verif/bin/nrilint', 'check', '-p', 'all', '-tier', 'quick', '-repo', os.path.join(S, 'repo'), '-verif', os.path.join(S, 'verif')], capture_output=True, text=True, env=env)
+        c = subprocess.run([os.path.join(os.path.dirname(S), 'nrilint-frozen'), 'check', '-p', 'all', '-tier', 'quick', '-repo', os.path.join(S, 'repo'), '-verif', os.path.join(S, 'verif')], capture_output=True, text=True, env=env)
         viol = sorted(set(l.split('property=')[1].split()[0] for l in c.stdout.splitlines() if l.startswith('VIOLATION')))
         res['result'] = 'detected' if viol else 'survived'
         res['by'] = viol
+        res['keys'] = sorted(set(l.strip()[4:][:120] for l in c.stdout.splitlines() if l.strip().startswith('key=')))[:6]
     open(path, 'wb').write(orig)
     print(json.dumps(res), flush=True)
 PY
